@@ -216,7 +216,43 @@ func (x *Exec) loopBackEdge(st *State, fn *ssa.Function, l *Loop) {
 func (x *Exec) havocLoop(st *State, fn *ssa.Function, l *Loop, lc *LoopContract) {
 	fr := st.top()
 	cells := map[*ssa.Alloc]bool{}
-	arrays := map[string]string{}
+	direct := map[string]string{}
+	arrays := direct // events redirect this variable (see ev)
+	evArrays := map[string]string{}
+	precise := map[string][]*ssa.Alloc{}
+	impreciseEv := map[string]bool{}
+	ev := func(alloc *ssa.Alloc, f func()) {
+		tmp := map[string]string{}
+		saved := arrays
+		arrays = tmp
+		f()
+		arrays = saved
+		for k, v := range tmp {
+			evArrays[k] = v
+			if alloc != nil {
+				precise[k] = append(precise[k], alloc)
+			} else {
+				impreciseEv[k] = true
+			}
+		}
+	}
+	heapAllocRoot := func(v ssa.Value) *ssa.Alloc {
+		for {
+			switch u := v.(type) {
+			case *ssa.FieldAddr:
+				v = u.X
+				continue
+			case *ssa.MakeInterface:
+				v = u.X
+				continue
+			case *ssa.Alloc:
+				if u.Heap {
+					return u
+				}
+			}
+			return nil
+		}
+	}
 	allHeap := false
 	hasGo, hasSend, hasMayPanic := false, false, false
 	logged := map[string]bool{}
@@ -320,7 +356,7 @@ func (x *Exec) havocLoop(st *State, fn *ssa.Function, l *Loop, lc *LoopContract)
 				case *ssa.Send:
 					hasSend = true
 				case *ssa.Store:
-					noteStore(ins.Addr)
+					ev(heapAllocRoot(ins.Addr), func() { noteStore(ins.Addr) })
 				case *ssa.MapUpdate:
 					ks, vs, _ := x.mapSorts(ins.Map.Type())
 					x.noteMap(arrays, ks, vs)
@@ -329,26 +365,6 @@ func (x *Exec) havocLoop(st *State, fn *ssa.Function, l *Loop, lc *LoopContract)
 					if !seenFn[cf] {
 						seenFn[cf] = true
 						scanBlocks(cf, cf.Blocks, func(*ssa.BasicBlock) bool { return true })
-					}
-				case *ssa.MakeMap:
-					ks, vs, _ := x.mapSorts(ins.Type())
-					x.noteMap(arrays, ks, vs)
-				case *ssa.MakeSlice:
-					et := ins.Type().Underlying().(*types.Slice).Elem()
-					x.noteElem(arrays, x.TM.Key(et))
-				case *ssa.Alloc:
-					if ins.Heap {
-						el := ins.Type().(*types.Pointer).Elem()
-						if stt, ok := types.Unalias(el).Underlying().(*types.Struct); ok && !isTime(el) && !x.TM.IsOpaqueStruct(el) {
-							for i := 0; i < stt.NumFields(); i++ {
-								n, vs := x.TM.FieldArray(el, stt, i)
-								arrays[n] = "(Array Int " + vs + ")"
-							}
-						} else if arr, ok := types.Unalias(el).Underlying().(*types.Array); ok {
-							x.noteElem(arrays, x.TM.Key(arr.Elem()))
-						} else {
-							x.noteCell(arrays, x.TM.Key(el))
-						}
 					}
 				case ssa.CallInstruction:
 					cc := ins.Common()
@@ -370,8 +386,7 @@ func (x *Exec) havocLoop(st *State, fn *ssa.Function, l *Loop, lc *LoopContract)
 					if bi, ok := cc.Value.(*ssa.Builtin); ok {
 						switch bi.Name() {
 						case "append":
-							et := types.Unalias(cc.Args[0].Type()).Underlying().(*types.Slice).Elem()
-							x.noteElem(arrays, x.TM.Key(et))
+							// writes a fresh backing array only
 						case "delete":
 							ks, vs, _ := x.mapSorts(cc.Args[0].Type())
 							x.noteMap(arrays, ks, vs)
@@ -411,21 +426,25 @@ func (x *Exec) havocLoop(st *State, fn *ssa.Function, l *Loop, lc *LoopContract)
 							if len(fc.ModSrc) > 0 {
 								// conservative: any callee modifies => havoc arrays named by field
 								for _, ms := range fc.ModSrc {
-									x.noteModArrays(callee, fc, ms, arrays, &allHeap)
+									ms := ms
+									ev(heapAllocRoot(x.modActual(callee, fc, ms, cc)), func() { x.noteModArrays(callee, fc, ms, arrays, &allHeap) })
 								}
 							}
 						}
 					}
 					// string -> []byte conversions etc. allocate in E.Int; handled via Convert below
-				case *ssa.Convert:
-					if _, ok := types.Unalias(ins.Type()).Underlying().(*types.Slice); ok {
-						x.noteElem(arrays, x.TM.Key(types.Typ[types.Uint8]))
-					}
 				}
 			}
 		}
 	}
 	scanBlocks(fn, fn.Blocks, func(b *ssa.BasicBlock) bool { return l.Body[b] })
+	arrays = map[string]string{}
+	for k, v := range direct {
+		arrays[k] = v
+	}
+	for k, v := range evArrays {
+		arrays[k] = v
+	}
 	// havoc cells of this frame
 	var cl []*ssa.Alloc
 	for a := range cells {
@@ -466,6 +485,28 @@ func (x *Exec) havocLoop(st *State, fn *ssa.Function, l *Loop, lc *LoopContract)
 	for _, n := range sortedKeys(arrays) {
 		srt := arrays[n]
 		if srt == "" {
+			continue
+		}
+		if _, d := direct[n]; !d && !impreciseEv[n] && !allHeap && len(precise[n]) > 0 && strings.HasPrefix(srt, "(Array Int ") {
+			// every write in the loop hits a known heap cell: havoc only those cells (allocated before the loop)
+			vs := strings.TrimSuffix(strings.TrimPrefix(srt, "(Array Int "), ")")
+			cur, ok := st.Heap[n]
+			if !ok {
+				cur = x.D.Const(fmt.Sprintf("%s@%d", n, st.Epoch), srt)
+			}
+			seen := map[*ssa.Alloc]bool{}
+			for _, a := range precise[n] {
+				if seen[a] {
+					continue
+				}
+				seen[a] = true
+				for _, f2 := range st.Frames {
+					if rv, ok := f2.Regs[a]; ok && rv.Ptr != nil && rv.Ptr.Base != "" {
+						cur = Store(cur, rv.Ptr.Base, x.D.Fresh("hc", vs))
+					}
+				}
+			}
+			st.Heap[n] = cur
 			continue
 		}
 		// make sure the base constant exists (so that later lookups find the sort), then havoc
@@ -643,4 +684,34 @@ func (x *Exec) noteObjectArrays(t types.Type, arrays map[string]string) {
 		return
 	}
 	x.noteCell(arrays, x.TM.Key(t))
+}
+
+// modActual finds the actual argument of a call that a callee's `*p` / `p.f` / `*unbox(p, ...)` modifies item
+// refers to (nil when it cannot be determined).
+func (x *Exec) modActual(callee *ssa.Function, fc *FuncContract, ms string, cc *ssa.CallCommon) ssa.Value {
+	ms = strings.TrimSpace(ms)
+	root := ms
+	if strings.HasPrefix(root, "*") {
+		root = strings.TrimSpace(root[1:])
+	}
+	if strings.HasPrefix(root, "unbox(") {
+		root = root[6:]
+		if i := strings.Index(root, ","); i >= 0 {
+			root = strings.TrimSpace(root[:i])
+		}
+	} else if i := strings.Index(root, "."); i >= 0 {
+		root = root[:i]
+	}
+	var names []string
+	if fc.Extern || fc.Iface {
+		names = fc.Params
+	} else if callee != nil {
+		names = paramNames(callee)
+	}
+	for i, n := range names {
+		if n == root && i < len(cc.Args) {
+			return cc.Args[i]
+		}
+	}
+	return nil
 }
